@@ -154,6 +154,8 @@ def split_rows(rng):
     # quantised instruments: one mode a single repeated value, the others on a coarse grid (many ties: a mixture
     # component can come out unpopulated, which is what the empty-component penalty of ncomp_from_gmm is for)
     quant = rng.choice([0, 0, 0, 50, 25, 100])
+    # an MSA with hits of higher types above it: rows dropped at construction (gaps in the row labels) before a group is split
+    high = rng.random() < 0.3
     rows = []
     for i in range(n):
         t = -900.0 + 900.0 / n * i
@@ -166,6 +168,8 @@ def split_rows(rng):
                     continue
                 h = base + m * gap + (drift * i if m == 0 else -drift * i) + (rng.uniform(-noise, noise) if noise else 0)
                 hs.append(float(round(h)) if integer else h)
+        if high and rng.random() < 0.3:
+            hs.append(base + 12000.0 + (i % 3))           # a higher-type hit far above MSA + buffer: dropped by the crop
         hs.sort()
         if not hs:
             rows.append(('0', t, float('nan'), 0))
@@ -183,6 +187,9 @@ def split_rows(rng):
         prms['LAYERING_PRMS'] = {'min_okta_to_split': rng.choice([0, 1, 2]),
                                  'gmm_kwargs': {'scores': rng.choice(['BIC', 'AIC']),
                                                 'delta_mul_gain': rng.choice([0.95, 1.0, 0.8])}}
+    if high:
+        prms['MSA'] = base + rng.choice([3000, 5000])
+        prms['MSA_HIT_BUFFER'] = rng.choice([0, 1500])
     if rng.random() < 0.1:
         prms.setdefault('LAYERING_PRMS', {}).setdefault('gmm_kwargs', {})['mode'] = 'prob'
         prms['LAYERING_PRMS']['gmm_kwargs']['min_prob'] = rng.choice([1.0, 0.9, 0.5])
@@ -454,6 +461,11 @@ def run_pipeline(chk, prop, n_scenes, families=FAMILIES, crash_is_violation=Fals
             elif crash_is_violation:
                 chk.spec_fail('C08.valid-input-refused', f"AmpycloudError at stage {res['stage']}: {res['exc_msg']}",
                               replay, signature=None)
+            else:
+                # the model computes a result for every generated scene (they are accepted inputs with in-domain
+                # parameters): an exception is a disagreement, whatever the property this check is about
+                chk.mismatch('cascade model = implementation (the implementation raised on an accepted scene)',
+                             f"{res['exc']} at stage {res['stage']}: {res['exc_msg']}", replay)
             continue
         if res.get('req') is None:
             chk.count('scene_outside_modelled_parameter_domain')
